@@ -1,3 +1,5 @@
+import json
+import zlib
 """Per-property configuration of vcheck: which TLC generation runs, which driver
 handler, which trace specification.  Bounds are fitted to measured state counts
 (DESIGN.md section 10)."""
@@ -29,7 +31,7 @@ def wraps_c03(case, ctx):
     ws = ["none", "li", "bq", "td", "dtd"]
     if ctx["tier"] == "thorough":
         return [dict(case, p={"wrap": w}) for w in ws]
-    w = ws[(hash(str(case["nodes"])) + ctx["seed"]) % len(ws)]
+    w = ws[(zlib.crc32(json.dumps(case["nodes"], sort_keys=True).encode()) + ctx["seed"]) % len(ws)]
     return [dict(case, p={"wrap": w})]
 
 
@@ -113,3 +115,34 @@ PROPS["C09"] = doc_prop(
     sample_quick=12000, sample_thorough=300000,
     rule="cases = documents over all element kinds; non-trivial = the run produced output words",
     nontrivial_key="with_output")
+
+
+def places_c18(case, ctx):
+    """C18: every vector at four placements (thorough) / one rotating placement (quick)"""
+    ps = ["body", "div", "li", "ltcell"]
+    if ctx["tier"] == "thorough":
+        return [dict(p=dict(case["p"], place=pl), r=case.get("r", "")) for pl in ps]
+    pl = ps[(zlib.crc32(json.dumps(case["p"], sort_keys=True).encode()) + ctx["seed"]) % 4]
+    return [dict(p=dict(case["p"], place=pl), r=case.get("r", ""))]
+
+
+PROPS["C18"] = dict(
+    stages=[
+        dict(name="rules", gen=dict(runs=dict(quick=[bfs("MC_C18", "C18_steps")], thorough=[bfs("MC_C18", "C18_steps")]))),
+        dict(name="main",
+             gen=dict(runs=dict(quick=[bfs("MC_C18", "C18_quick")], thorough=[bfs("MC_C18", "C18_full", timeout=3000, heap="16g")])),
+             sample=dict(quick=14000, thorough=600000),
+             expand=places_c18,
+             stratify=lambda c: c.get("r", ""),
+             trace=dict(module="TableTrace", cfg="TableTrace")),
+    ],
+    rule="cases = feature vectors of the table classifier (TableClass!Features), each built as a real table after a retained "
+         "paragraph; non-trivial = the real classifier visited the table (hook event seen); counters give verdict/reason coverage",
+    nontrivial_key="visited",
+    assumptions=[
+        "the verdict of the real classifier is read from the verif hook events TableClass/TableInfo (build tag verif)",
+        "feature values where the statement is silent are not generated: header cells without text, roles inside nested tables",
+        "the table is built as TableClass!Build(f) describes; the harness re-measures tr/td counts on the parsed tree (DRIFT if they differ)",
+    ],
+    exhaustive_tiers=("thorough",),
+)
